@@ -14,6 +14,7 @@ pub mod c19;
 pub mod c20;
 pub mod c02;
 pub mod c03;
+pub mod c05;
 pub mod c06;
 pub mod c11;
 pub mod c12;
@@ -40,6 +41,7 @@ pub fn run(args: &Args) -> ! {
         "C03" => c03::run(args),
         "C02" => c02::run(args),
         "C17" => c17::run(args),
+        "C05" => c05::run(args),
         p => {
             eprintln!("INFRA: unknown property '{}'", p);
             std::process::exit(2)
@@ -76,6 +78,7 @@ pub fn replay_one(ctx: &Ctx, doc: &ReplayDoc) {
         "C03" => c03::replay_one(ctx, doc),
         "C02" => c02::replay_one(ctx, doc),
         "C17" => c17::replay_one(ctx, doc),
+        "C05" => c05::replay_one(ctx, doc),
         p => ctx.infra_error(format!("unknown property '{}' in replay file", p)),
     }
 }
@@ -86,6 +89,7 @@ pub fn worker_dispatch(sub: &str, v: Value) -> Value {
         "C13" => c13::worker(sub, v),
         "C19" => c19::worker(sub, v),
         "C14" => c14::worker(sub, v),
+        "C05" => c05::worker(sub, v),
         _ => Value::Null,
     }
 }
